@@ -196,6 +196,18 @@ def cases(rng, tier):
     for _ in range(60 if tier == 'quick' else 2000):
         lines, stats = gen_release_seq(rng)
         out.append({'lines': lines, 'stats': stats, 'desc': ' ; '.join(l for l in lines if not l.startswith(('t flags', 't modes', 't grad')))[:900]})
+    # arguments under which an op changes nothing (flatten of a single dim, reshape to the same shape, squeeze with nothing to
+    # squeeze, a dim moved onto itself, the empty tuple of dims, exponent 1): the result is still a NEW tensor whose flag
+    # follows the rule — inside no_grad it must not require grad although the operand does
+    noop = [((3,), 'flatten 0 0 0'), ((2, 3), 'flatten 0 1 1'), ((2, 3), 'flatten 0 -1 -1'), ((2, 3), 'reshape 0 2,3'), ((3,), 'reshape 0 -1'),
+            ((2, 3), 'squeeze 0 all'), ((2, 3), 'squeeze 0 t:_'), ((2, 3), 'transpose 0 0 0'), ((2, 3), 'transpose 0 1 -1'), ((2, 3), 'movedim 0 1 1'),
+            ((2, 3), 'sum 0 t:_ 0'), ((2, 3), 'mean 0 t:_ 1'), ((3,), f'pow 0 {common.fbits(1.0)}'), ((3,), 'clone 0'), ((), 'sum 0 all 0'), ((), 'reshape 0 _')]
+    for sh, opl in (noop if tier != 'quick' else rng.sample(noop, 10)):
+        for ng, rg in ((True, True), (False, rng.chance(.5))):
+            n = int(np.prod(sh)) if sh else 1
+            lines = [gen_dag.leaf_line(sh, [float(rng.randint(1, 3)) for _ in range(n)], rg)] + (['t ctx new ng', 't ctx enter 0'] if ng else []) + \
+                    [f't op {opl}', 't flags 1', 't flags 0', 't op mul 1,1', 't flags 2'] + (['t ctx exit 0'] if ng else []) + ['t op mul 1,0', 't flags 3', 't modes']
+            out.append({'lines': lines, 'stats': {'maxdepth': 1, 'pre': False, 'op_in_ng': ng}, 'desc': 'no-op arguments: ' + ' ; '.join(lines)[:300]})
     for _ in range(3 if tier == 'quick' else 16):
         lines, stats = fresh_seq(rng)
         out.append({'lines': lines, 'stats': stats, 'fresh': True, 'desc': 'fresh interpreter: ' + ' ; '.join(l for l in lines if not l.startswith(('t flags', 't modes')))[:900]})
